@@ -1,6 +1,7 @@
 import SLE.Lemmas.TCSlots
 import SLE.Lemmas.LiftInv
 import SLE.Lemmas.Layout
+import SLE.Lemmas.MergePacked
 /-!
 # C12 — returned layouts are ordered and every entry lies inside its slot
 
@@ -35,6 +36,16 @@ theorem C12_rule_span (st : RegState) (off size : Nat) (sub : TV) (t : Nat) :
     (sub.tv, TE.packed [⟨t, off, size⟩] false) ∈
       (applyRules st (.node .subWord [off, size] [sub] t)).judgements := by
   simp [applyRules, infer, bytesN]
+
+
+/-- Combining evidence keeps spans inside the word: if every span of the two inputs ends at or
+before bit 256 (and sized words are at most 256 wide), so does every span of the result and of
+every judgement the merge emits — re-partitioning on boundaries never creates a span outside the
+word. (The out-of-slot entries of finding D20 come from nesting at rendering time.) -/
+theorem C12_merge_keeps_spans_in_word (a b : TE) (p n : Nat) (m : MergeOut)
+    (ha : MergePacked.WOk a) (hb : MergePacked.WOk b) (h : Merge.merge a b p n = .ok m) :
+    MergePacked.WOk m.expr ∧ ∀ j ∈ m.judgements, MergePacked.WOk j.2 :=
+  MergePacked.merge_width_safe a b p n m ha hb h
 
 /-! The end-to-end statement (`offset + width ≤ 256` for every rendered entry) additionally needs
 an invariant of unification on packed spans; it is carried by the oracle of families `tc`,
